@@ -423,8 +423,17 @@ def oas30_to_json_schema(schema):
     return map_schema(schema, fn)
 
 
-def why_invalid(validator, d, limit: int = 160) -> str:
-    """stable description of why a validator rejects: failing keyword @ schema location"""
-    items = sorted({f"{e.validator}@{'/'.join(str(p) for p in e.absolute_schema_path)}" for e in validator.iter_errors(d)})
+def why_invalid(validator, d, limit: int = 200) -> str:
+    """stable description of why a validator rejects: failing keyword @ schema location (the
+    leaves of anyOf / oneOf failures, so that the cause inside a combination is visible)"""
+
+    def leaves(e):
+        if e.context:
+            for c in e.context:
+                yield from leaves(c)
+        else:
+            yield e
+
+    items = sorted({f"{l.validator}@{'/'.join(str(p) for p in l.absolute_schema_path)}" for e in validator.iter_errors(d) for l in leaves(e)})
     s = ";".join(items)
     return s if len(s) <= limit else s[: limit - 3] + "..."
